@@ -282,7 +282,8 @@ impl Case {
         let mut handle = vec![0u8; MAX_PROD];
         let n = init.nprod.clamp(1, MAX_PROD);
         let (sh, push_lock) = if init.pipe {
-            let (sender, receiver) = rustrtc::media::pipeline::verif_sample_queue_channel(init.cap);
+            let (sender, receiver) = if init.start == 0 { rustrtc::media::pipeline::verif_sample_queue_channel(init.cap) }
+                else { rustrtc::media::pipeline::verif_sample_queue_channel_with_start(init.cap, init.start) };
             let sender = Arc::new(sender);
             let pipe = Pipe { queue: receiver.verif_queue(), pop_lock: receiver.verif_pop_lock(), closed: receiver.verif_closed_flag(),
                 sender: Arc::downgrade(&sender),
